@@ -12,6 +12,24 @@ fn s(x: &str) -> Vec<u8> {
 }
 
 /// One token (or a few) that means something at `level`; may descend.
+/// A value for `a`; for a delimited argument often several values joined by its delimiter.
+fn arg_value(t: &mut Tape<'_>, a: &ArgSpec) -> String {
+    let v = good_value(t, &a.parser);
+    match a.value_delimiter {
+        Some(d) if t.chance(1, 3) => {
+            let mut out = v;
+            for _ in 0..t.range(1, 2) {
+                out.push(d);
+                if !t.chance(1, 6) {
+                    out.push_str(&good_value(t, &a.parser));
+                }
+            }
+            out
+        }
+        _ => v,
+    }
+}
+
 fn token<'a>(t: &mut Tape<'_>, level: &mut &'a CmdSpec, out: &mut Argv) {
     let c: &CmdSpec = level;
     let flags: Vec<&ArgSpec> = c.args.iter().filter(|a| !a.is_positional()).collect();
@@ -40,7 +58,7 @@ fn token<'a>(t: &mut Tape<'_>, level: &mut &'a CmdSpec, out: &mut Argv) {
                 name = name.chars().take(n).collect();
             }
             if a.action.takes_values() {
-                let v = good_value(t, &a.parser);
+                let v = arg_value(t, a);
                 match t.weighted(&[4, 4, 1, 1]) {
                     0 => out.push(s(&format!("--{name}={v}"))),
                     1 => {
@@ -48,7 +66,7 @@ fn token<'a>(t: &mut Tape<'_>, level: &mut &'a CmdSpec, out: &mut Argv) {
                         let (_, hi) = a.value_range();
                         let n = if hi > 1 { t.range(1, hi.min(4)) } else { 1 };
                         for _ in 0..n {
-                            out.push(s(&good_value(t, &a.parser)));
+                            out.push(s(&arg_value(t, a)));
                         }
                     }
                     2 => out.push(s(&format!("--{name}"))),
@@ -79,15 +97,15 @@ fn token<'a>(t: &mut Tape<'_>, level: &mut &'a CmdSpec, out: &mut Argv) {
                 if a.action.takes_values() && a.short.is_some() {
                     match t.weighted(&[3, 2, 2, 1]) {
                         0 => {
-                            tok.push_str(&good_value(t, &a.parser));
+                            tok.push_str(&arg_value(t, a));
                         }
                         1 => {
                             tok.push('=');
-                            tok.push_str(&good_value(t, &a.parser));
+                            tok.push_str(&arg_value(t, a));
                         }
                         2 => {
                             out.push(s(&tok));
-                            out.push(s(&good_value(t, &a.parser)));
+                            out.push(s(&arg_value(t, a)));
                             return;
                         }
                         _ => {}
@@ -130,7 +148,7 @@ fn token<'a>(t: &mut Tape<'_>, level: &mut &'a CmdSpec, out: &mut Argv) {
             let pos: Vec<&ArgSpec> = c.args.iter().filter(|a| a.is_positional()).collect();
             if !pos.is_empty() && t.chance(2, 3) {
                 let a = *t.pick(&pos);
-                out.push(s(&good_value(t, &a.parser)));
+                out.push(s(&arg_value(t, a)));
             } else {
                 out.push(s(t.pick_s(VALUES)));
             }
